@@ -143,6 +143,8 @@ pub fn schema_doc(src: &mut Src) -> J {
         o.insert("n".to_string(), schema_number(src));
         o.insert("s".to_string(), J::Str(schema_string(src)));
         o.insert("t".to_string(), num_array(src, 8));
+        // `m`: a key that is a number for most elements and a string for a few later ones
+        o.insert("m".to_string(), if i >= 1 && src.chance(12) { J::Str("mixed".into()) } else { J::int(i as i64 % 5) });
         if src.chance(200) {
             let mut inner = BTreeMap::new();
             inner.insert("a".to_string(), schema_number(src));
